@@ -8,12 +8,22 @@
       profile.
 
     Index
-    1. [run_shapes_decompose], [run_shapes_ok_iff], [run_shapes_err_iff]
-    2. [pd_entry_occ] / [occ_pd_entry] (profile entry <-> positive [occ]),
-       [fig_occ], [post_okR], [e2e_header], [e2e_figures], [e2e_ratio_le_one]
-    3. [e2e_keys_iff_occ], [e2e_keys_max], [e2e_keys_nodup], [e2e_keys_remove]
-    4. [insts_equiv], [occ_insts_equiv], [class_count_insts_equiv],
-       [track_plain_char], [track_perm], [e2e_keys_perm], [e2e_profile_perm] *)
+    1. [run_shapes_unfold], [run_shapes_ok_iff], [run_shapes_decompose],
+       [run_failure] / [run_shapes_err_iff], [run_profile_err]
+    2. [fig_occ] (+ [fig_occ_cases], [fig_occ_single], [fig_occ_single_le]),
+       [post_okR] / [comment_okR], [pd_entry_occ] / [occ_pd_entry] (profile
+       entry <-> positive [occ]), [composed_shape], [e2e_figures],
+       [e2e_header], [class_count_as_length], [e2e_ratio_le_one],
+       [e2e_line_exact], [e2e_comment_exact]
+    3. [key_passes_occ], [no_nonliteral_datatype], [occ_not_nonliteral],
+       [e2e_keys_iff_occ], [e2e_keys_remove], [key_passes_occ_max],
+       [e2e_keys_max] (any algebra with [FreqLaws]), [e2e_keys_max_B/_Q]
+    4. [insts_equiv], [class_count_insts_equiv], [cnt_insts_equiv],
+       [occ_insts_equiv], [occ_perm_equiv], [track_plain_char],
+       [track_plain_ok_iff], [track_perm], [e2e_keys_perm],
+       [e2e_profile_perm], [counts_track_perm]
+    5. complements to C01: [e2e_line_ratio_le_one], [track_classes_nodup],
+       [e2e_header_instances] *)
 From Coq Require Import List Ascii String ZArith NArith Bool Lia Permutation.
 From Shexer Require Import Lib.PyStr Lib.Dict Lib.Bin64 Gen.Consts Spec.Rdf Model.Tracker Model.Profiler
   Model.Tokens Model.Freq Model.FreqInst Model.Shexing Model.Run Spec.Counts
